@@ -21,6 +21,11 @@ def add_compare(rng, spec, p_cc=0.3):
                                                  (oc.exit, oc.out, oc.err),
                                                  cc=True)
         spec['cc_args'] = rng.choice([[], ['--cc-arg']])
+        # command and cross-check command may be two builds of one solver
+        # (same base name, different directories)
+        import random as _r
+        spec['same_basename'] = _r.Random(spec.get('seed', 0) * 17 +
+                                          3).random() < 0.3
 
 
 class C01(props.Prop):
@@ -82,6 +87,14 @@ class C01(props.Prop):
         v.nontrivial = True
         g, gcc = props.golden_runs(res)
         if g is None:
+            if rec.writes and not cfg.get('unchecked'):
+                v.violate(
+                    'output-not-a-tested-candidate',
+                    f'C01:output-not-a-tested-candidate:{mode}',
+                    'an output file was written although the command under '
+                    'test was never run (no golden run of it was observed; '
+                    f'{len(rec.inv)} invocations of other executables)',
+                    output=res.final_out.decode(errors='replace')[:400])
             return v
         # (a) re-run the command(s) on the output file
         m = gen_cmd.CmdModel(spec['model'])
